@@ -5,11 +5,17 @@
     Funcs/Write  14 Binary.Write*                     = Wire.w*                (C01 C12)
     Funcs/Append 16 Binary.Append*/appendUint32/64, 16 *Length = Wire.a*, Wire.length (C01 C12 C15)
     Funcs/TTH    7 ttheader byte helpers              = TTH.bytes2Uint*, readString2BLen, isStreaming, isTTHeader (C03 C06 C10)
+    Funcs/TTH2   readKVInfo (the `for {}` loop over info sections), readStrKVInfo, readIntKVInfo (counted loops),
+                 readACLToken, checkProtocolID     = TTH.readKVInfo … checkProtocolID, by induction on the fuel (C03 C06 C10)
+    Funcs/Skip   Binary.Skip / skipType (self-recursive, three loops, unsafe loads) / skipstr / p2i32
+                                                   = skipBin, by induction on the depth, `oob` positions included (C02 C03 C08 C17)
 -/
 import Verif.Lemmas.Funcs.Read
 import Verif.Lemmas.Funcs.Write
 import Verif.Lemmas.Funcs.Append
 import Verif.Lemmas.Funcs.TTH
+import Verif.Lemmas.Funcs.TTH2
+import Verif.Lemmas.Funcs.Skip
 namespace Verif.FuncsEq
 
 /-- every whitelisted function was translated in this run (a refused one has no definition and no theorem) -/
